@@ -242,7 +242,7 @@ func main() {
 			"encoded time >= previous id time and within [-3ns,+1us] of max(clock reading, previous id time). "+
 			"seqno: every order of {content via Conn.Invoke, get_future_salts, msgs_ack, ping} up to length %d through a real mtproto.Conn (frames decrypted by an independent "+
 			"MTProto 2.0 reference): content seq_no = 2k+1, service = 2k, msg ids increasing and %%4 == 0. distinct = distinct witnesses.", maxLen, seqLen)
-		c.Assume("one harness thread: concurrent interleavings of Invoke/service writers (the schedules quantifier) need E-SCHED and are not covered here")
+		c.Assume("the sequential families run on one harness thread; concurrent writers are covered by the E-SCHED companion binary (checks/c08/sched, family sched:writers)")
 		c.Assume("td's id convention (low 32 bits = nanosecond fraction) is used to decode the time of an id; 'close' is taken as 1 us above / 3 ns below")
 		c.Assume("reference AES-IGE/KDF/msg_key of lib/refcrypto and the envelope layout of lib/refsession")
 
@@ -289,5 +289,11 @@ func main() {
 			}
 		}
 		ops(nil, seqLen)
+		// E-SCHED companion: concurrent writers on one Conn (5 scenarios x 3 subtree shards; thorough 7 x 4)
+		units := 15
+		if c.Thorough() {
+			units = 28
+		}
+		c.ForkSched(units, 16)
 	})
 }
